@@ -200,6 +200,11 @@ def shapes_for(trait, tier, rnd):
     if trait == "Default":
         out.append(Shape("default-value-first", [("Option<T>", ["#[default(None)]"], {"Default": False}), ("U", [], {})]))
         out.append(Shape("default-value-last", [("T", [], {}), ("std::vec::Vec<U>", ["#[default(std::vec::Vec::new())]"], {"Default": False})]))
+        # the explicit value is of a bare parameter type: a bound on it would be visible for every instantiation that lacks Default
+        out.append(Shape("default-value-param-last", [("T", [], {}), ("U", ["#[default(crate::support::mk_any())]"], {"Default": False})]))
+        out.append(Shape("default-value-param-first", [("T", ["#[default(crate::support::mk_any())]"], {"Default": False}), ("U", [], {})]))
+        out.append(Shape("default-value-param-middle", [("Option<T>", [], {}), ("U", ["#[default(crate::support::mk_any())]"], {"Default": False}), ("u8", [], {})]))
+        out.append(Shape("default-enum-value-param", [("T", [], {}), ("U", ["#[default(crate::support::mk_any())]"], {"Default": False})], variants=[("A", "named", [0, 1]), ("C", "unit", [])], default_variant=0))
         out.append(Shape("default-enum-first", [("T", [], {}), ("U", [], {"Default": False})], variants=[("A", "tuple", [0]), ("B", "named", [1]), ("C", "unit", [])], default_variant=0))
         out.append(Shape("default-enum-middle", [("T", [], {"Default": False}), ("Option<U>", [], {})], variants=[("A", "tuple", [0]), ("B", "named", [1]), ("C", "unit", [])], default_variant=1))
         out.append(Shape("default-enum-unit", [("T", [], {"Default": False}), ("U", [], {"Default": False})], variants=[("A", "tuple", [0]), ("B", "named", [1]), ("C", "unit", [])], default_variant=2))
